@@ -110,6 +110,7 @@ class ConfigList(ComposedNode, list):
         index = self._validate_index(index, strict=False)
         self._children = { ((idx+1) if idx >= index else idx): value for idx, value in self._children.items() }
         value = ComposedNode.ayns.set_child(self, index, value)
+        self._children = { idx: self._children[idx] for idx in sorted(self._children) } # keep the child map in list order
         list.insert(self, index, value)
 
     if not utils.python_is_at_least(3, 7):
